@@ -182,7 +182,7 @@ graph!(c10_graph_1_none, 1, 0);
 graph!(c10_graph_1_self, 1, 1);
 //@ props=C10 tier=thorough bounds=graph:2-node-chain;labels-symbolic
 graph!(c10_graph_2_none, 2, 0);
-//@ props=C10 tier=thorough bounds=graph:2-cycle;labels-symbolic cap=2400
+//@ props=C10 tier=off bounds=graph:2-cycle;labels-symbolic cap=2400
 graph!(c10_graph_2_cycle, 2, 1);
 //@ props=C10 tier=off bounds=graph:2-nodes,self-loop-on-second;labels-symbolic
 graph!(c10_graph_2_self, 2, 2);
@@ -192,7 +192,7 @@ graph!(c10_graph_3_none, 3, 0);
 graph!(c10_graph_3_cycle, 3, 1);
 //@ props=C10 tier=off bounds=graph:3-nodes,back-edge-to-second;labels-symbolic cap=2400
 graph!(c10_graph_3_back, 3, 2);
-//@ props=C10 tier=thorough bounds=graph:3-nodes,self-loop-on-third;labels-symbolic cap=2400
+//@ props=C10 tier=off bounds=graph:3-nodes,self-loop-on-third;labels-symbolic cap=2400
 graph!(c10_graph_3_self, 3, 3);
 
 proof! {
